@@ -280,7 +280,8 @@ func (d *dagGen) step() {
 	case 15: // MatMul of a tensor with itself (square) or a batched left operand with a matrix weight
 		if a, ok := d.pickRank(2); ok && a.shape[0] == a.shape[1] {
 			d.addNode("MatMul", nil, []string{a.name, a.name}, []poolT{{d.fresh(""), a.shape}})
-		} else if a, ok := d.pickRank(3); ok {
+		} else if a, ok := d.pickRank(3); ok && a.shape[1]*a.shape[2] >= 2 {
+			// (a 1x1 matrix per batch entry is a recorded finding of C04: matmul.batched_1x1)
 			w := d.addInit([]int{a.shape[2], 2}, d.nName)
 			d.addNode("MatMul", nil, []string{a.name, w}, []poolT{{d.fresh(""), []int{a.shape[0], a.shape[1], 2}}})
 		}
@@ -290,8 +291,8 @@ func (d *dagGen) step() {
 			st, en, ax := d.fresh("st"), d.fresh("en"), d.fresh("axs")
 			d.g.Inits = append(d.g.Inits, InitJ{Name: st, T: idxT("i64", []int{1}, []int{1})}, InitJ{Name: en, T: idxT("i64", []int{1}, []int{a.shape[r-1]})}, InitJ{Name: ax, T: idxT("i64", []int{1}, []int{r - 1})})
 			ns := append(append([]int{}, a.shape[:r-1]...), a.shape[r-1]-1)
-			if ns[r-1] == 1 && r > 1 {
-				return // extent-1 results of Slice are a recorded finding of C08
+			if ns[r-1] == 1 {
+				return // extent-1 results of Slice are a recorded finding of C08 (the axis is dropped)
 			}
 			d.addNode("Slice", nil, []string{a.name, st, en, ax}, []poolT{{d.fresh(""), ns}})
 		}
